@@ -1,4 +1,5 @@
 import Garr.Num.F64
+import Garr.Num.Wrap
 /-!
 # Model of package `retry` (back-off policies, constructors' validators)
 
@@ -12,9 +13,6 @@ open Garr
 
 def maxI64 : Int := 2^63 - 1
 def minI64 : Int := -(2^63)
-
-/-- two's-complement wrap into int64 -/
-def wrap64 (x : Int) : Int := (x + 2^63) % 2^64 - 2^63
 
 def inI64 (x : Int) : Prop := minI64 ≤ x ∧ x ≤ maxI64
 instance (x : Int) : Decidable (inI64 x) := by unfold inI64; infer_instance
